@@ -1,6 +1,7 @@
 import Dhlldv.Real
 import Dhlldv.Gen.Stratified
 import Dhlldv.Lemmas.Interp
+import Dhlldv.Lemmas.InterpMonoInc
 import Mathlib.Analysis.Real.Pi.Bounds
 import Mathlib.Tactic.Ring
 import Mathlib.Tactic.NormNum
@@ -62,3 +63,35 @@ theorem C19_segment_ends :
   constructor
   · simp
   · simp [Real.pi_ne_zero]
+
+
+/-- the regenerated table satisfies the monotone-table predicate (keys and half-angles strictly increasing row by row) -/
+theorem C19_table_inc : ∃ p q rest, (Tbl.Arel_to_beta (α := ℝ)).pts = p :: q :: rest ∧ Interp.Inc p (q :: rest) ∧
+    p = (0, 0) ∧ Interp.lastPt p (q :: rest) = (1, 3.1415927) := by
+  refine ⟨_, _, _, rfl, ?_, ?_, ?_⟩
+  · simp only [Interp.Inc]; norm_num
+  · ext <;> norm_num
+  · simp only [Interp.lastPt]; ext <;> norm_num
+
+/-- the bed half-angle the code uses increases STRICTLY with the bed concentration over the whole range 0 ≤ Cvs ≤ Cvb (every pair of concentrations,
+not only table nodes), and stays within [0, 3.1415927] -/
+theorem C19_beta_strictMono (c1 c2 : ℝ) (h0 : 0 ≤ c1) (h12 : c1 < c2) (h1 : c2 ≤ 0.6) :
+    stratified.beta c1 < stratified.beta c2 ∧ 0 ≤ stratified.beta c1 ∧ stratified.beta c2 ≤ 3.1415927 := by
+  obtain ⟨p, q, rest, ht, hinc, hp, hl⟩ := C19_table_inc
+  have hb : (Cst.Cvb : ℝ) = 0.6 := rfl
+  have x0 : p.1 ≤ c1 / (Cst.Cvb : ℝ) := by rw [hp, hb]; exact div_nonneg h0 (by norm_num)
+  have xy : c1 / (Cst.Cvb : ℝ) < c2 / (Cst.Cvb : ℝ) := by rw [hb]; exact div_lt_div_of_pos_right h12 (by norm_num)
+  have y1 : c2 / (Cst.Cvb : ℝ) ≤ (Interp.lastPt p (q :: rest)).1 := by
+    rw [hl, hb]; show c2 / 0.6 ≤ 1; rw [div_le_one (by norm_num)]; exact h1
+  obtain ⟨vx, vy, ex, ey, hlt⟩ := Interp.lookup_strictMono _ p q rest ht hinc _ _ x0 xy y1
+  obtain ⟨v1, e1, lo1, _⟩ := Interp.lookup_range_inc _ p q rest ht hinc _ x0 (le_trans xy.le y1)
+  obtain ⟨v2, e2, _, hi2⟩ := Interp.lookup_range_inc _ p q rest ht hinc _ (le_trans x0 xy.le) y1
+  rw [C19_beta_is_lookup, C19_beta_is_lookup]
+  unfold InterpTable.at
+  rw [ex, ey]
+  rw [ex] at e1; rw [ey] at e2
+  simp only [Option.some.injEq] at e1 e2
+  subst e1; subst e2
+  refine ⟨hlt, ?_, ?_⟩
+  · rw [hp] at lo1; exact lo1
+  · rw [hl] at hi2; exact hi2
